@@ -223,13 +223,19 @@ def penalty_data(case, kind):
     """Noise-free data whose clps encode the index: clp_src[i] = 4^i (the other label 0, 'c' generic)."""
     pv = O.parameter_values(case)
     out = {}
-    for ds in case["datasets"]:
+    nmax = max(len(d["g"]) for d in case["datasets"])
+    own = bool(case.get("features", {}).get("own_axis_per_dataset"))
+    for di, ds in enumerate(case["datasets"]):
         labels, M = O.dataset_matrix(case, ds, pv)
         D = np.zeros((len(ds["t"]), len(ds["g"])))
         for i in range(len(ds["g"])):
             clp = np.zeros(len(labels))
             clp[labels.index("a" if kind == "pen_source" else "b")] = 4.0 ** i
             clp[labels.index("c")] = 0.5
+            if own and i == 0:
+                # datasets with their own axis: the OTHER label (whose interval is the whole axis) carries a marker that
+                # names the dataset, so that an entry can be attributed when another dataset contributes none
+                clp[labels.index("b" if kind == "pen_source" else "a")] = (di + 1) * 4.0 ** (nmax + 1)
             D[:, i] = M[i] @ clp
         out[ds["label"]] = D
     return out
@@ -298,6 +304,21 @@ def observe(case, kind, prepare=None):
             for l in labels:
                 sets[l] = s
             sets["_entries"] = len(dec)
+        elif case.get("features", {}).get("own_axis_per_dataset"):
+            # code = marker of the dataset - sum over the probed area (the marker exceeds every possible area sum)
+            sets["_entries"] = len(codes)
+            for l in labels:
+                sets[l] = set()
+            unit = 4 ** (n + 1)
+            for cde in codes:
+                r = round(cde)
+                if abs(cde - r) > 1e-5 * max(1.0, abs(cde)):
+                    raise AssertionError(f"area code {cde!r} is not an integer")
+                d = -(-r // unit)  # ceil
+                if not 1 <= d <= len(labels):
+                    raise AssertionError(f"area code {r} carries no dataset marker")
+                tsum = d * unit - r
+                sets[labels[d - 1]] = {i for i in range(n) if (tsum >> (2 * i)) & 3}
         else:
             sets["_entries"] = len(dec)
             if len(dec) == len(labels):
